@@ -38,6 +38,8 @@ def gen(rng, tier):
             pos = rng.randrange(len(s)); bad = bytes([rng.choice([0x10, 0x19, 0x20, 0x2F, 0x3A, 0x40, 0x5B, 0x60, 0x7B, 0x80, 0xB0, 0xFF, 0x2B, 0x3D, 0x0A])])
             dec(s[:pos] + bad + s[pos + 1:], "invalid-char pos=%s" % ("first" if pos == 0 else ("last" if pos == len(s) - 1 else "mid")))
     # decode of encodings (round trip through the real encoder is covered by enc==model and dec==model on the same strings)
+    # every API family once during static initialisation of the driver (before the library's own dynamic initialisers have run)
+    cases.append(Case("staticinit", "static-initialisation battery", True, spec="staticinit"))
     return cases
 
 def key(case, impl, model):
